@@ -63,6 +63,26 @@ static void c05_run(vf_case *c)
                 c->nontrivial = n >= 2;
             } else { vf_tag(c, "residual=skipped-by-conditioning-rule"); c->counters[2]++; }
         }
+        /* another right-hand side with the factors, equed, R and C of the call above (Fact = FACTORED), any Trans */
+        if (info == 0 && c->verdict != 1 && rng_bool(r, 0.4)) {
+            superlu_options_t x2 = xo; x2.Fact = FACTORED; x2.Trans = (trans_t)rng_int(r, 0, 2); x2.IterRefine = rng_bool(r, 0.5) ? NOREFINE : xo.IterRefine;
+            ldc *B1 = malloc(sizeof(ldc) * (size_t)n * (nrhs + 1)); DNformat *bs = D.B.Store;
+            for (int j = 0; j < nrhs; j++) for (int i = 0; i < n; i++) { B1[(size_t)j * n + i] = P->round((2 * rng_unif(r) - 1) + (P->cplx ? (2 * rng_unif(r) - 1) * I : 0)); P->set(bs->nzval, (size_t)j * bs->lda + i, B1[(size_t)j * n + i]); }
+            char eq0 = D.equed[0];
+            xdrv_call(&D, &x2);
+            vf_tag(c, "resolve-FACTORED/equed=%c", eq0);
+            if (!(D.info == 0 || D.info == n + 1)) vf_viol(c, "resolve-info", "FACTORED re-solve (trans=%d, equed=%c): info=%lld", (int)x2.Trans, eq0, (long long)D.info);
+            else if (D.equed[0] != eq0) vf_viol(c, "resolve-changed-equed", "FACTORED re-solve changed equed %c -> %c", eq0, D.equed[0]);
+            else if (xdrv_check_B_scaling(&D, x2.Trans, B1, why, sizeof why)) vf_viol(c, "resolve-B-scaling", "FACTORED re-solve (%s, trans=%d, equed=%c): %s", o.rowmajor ? "NR" : "NC", (int)x2.Trans, eq0, why);
+            else {
+                int judge2 = 1, nonfin2; ld cf2 = P->cplx ? 16 : 8;
+                if (x2.IterRefine != NOREFINE) { vf_mat F; xdrv_factored_matrix(&D, &F); ld cond = dense_cond1(&F, NULL, NULL, NULL, NULL); mat_free(&F); ld eta = xdrv_solver_cond(&D); if (eta > cond) cond = eta;
+                    if (!(n * P->eps * cond * xdrv_skeel_sigma(&D, x2.Trans) < 1e-2L) || D.info == n + 1) judge2 = 0; }
+                if (judge2) { ld q2 = xdrv_scaled_residual(&D, x2.Trans, cf2, &nonfin2);
+                    if (nonfin2 || !(q2 <= 1.0L)) vf_viol(c, "resolve-residual", "FACTORED re-solve (%s, trans=%d, equed=%c, refine=%d): residual exceeds the factor-derived bound by %.3Lg", o.rowmajor ? "NR" : "NC", (int)x2.Trans, eq0, (int)x2.IterRefine, q2); }
+            }
+            free(B1);
+        }
     } else if (info > 0 && info <= n) vf_tag(c, "info=singular");
     else if (info > n + 1 && use_ws) vf_tag(c, "info=nomem");
     else vf_viol(c, "info-unexpected", "gssvx returned info=%lld on a valid call", (long long)info);
